@@ -241,6 +241,26 @@ pub const ATTR_SNIPPETS: &[&str] = &[
     " a=1",
     " a",
     " xmlns:xsi=\"http://www.w3.org/2001/XMLSchema-instance\"",
+    // truncated / value-less forms at the very end of the tag
+    " xsi:nil",
+    " p:nil",
+    " xsi:nil=",
+    " xsi:nil=\"",
+    " xsi:nil=\"true",
+    " xsi:ni",
+    " xsi:",
+    " :nil",
+    " xmlns:xsi",
+    " xmlns:xsi=",
+    " xmlns:",
+    " xmlns",
+    " a=\"1\" xsi:nil",
+    " a=\"\r\"",
+    " a='x\r'",
+    " a=\"x y\r\"",
+    " a=\"\t\"",
+    " a=\"\n\"",
+    " a=\"&#13;\"",
 ];
 
 #[derive(Clone, Debug, Serialize, Deserialize, PartialEq)]
@@ -488,6 +508,7 @@ pub const VOCAB: &[&str] = &[
     "<a xsi:nil=\"true\">", "<opt xsi:nil=\"true\" xmlns:xsi=\"http://www.w3.org/2001/XMLSchema-instance\">", "<a xsi:nil=\"false\"/>", "<a nil=\"true\">", "<inner xsi:nil=\"1\" a=\"\">", "<item xsi:nil='true'/>", "<root xsi:nil=\"true\">",
     "<a k=\"1\" k=\"2\">", "<a k=1>", "<a k>", "<a k=\"1>", "<a =1>", "<a a=\"1\" a=\"2\"/>", "<a k=\"&unknown;\">", "<a k=\"&lt;\" j='&#65;'>", "<inner a=\"1\" a=\"2\">", "<a xmlns=\"u\">", "<p:a xmlns:p=\"u\">", "</p:a>",
     "</>", "<>", "</zzz>", "<", ">", "/>", "<a", "</a", "<!", "<!-", "<![", "<![CDATA[", "]]>", "-->", "?>", "\u{feff}",
+    "<x:nil>", "</x:nil>", "<xsi:nil/>", "<a xsi:nil>", "<item p:nil/>", "<a xsi:nil=>", "<nil>", "\r", "x\r", "<a k=\"\r\">", "<a k='v\r'>", "<inner a=\"x\r\n\">",
 ];
 
 pub fn tokens_of(doc: &str) -> Vec<String> {
